@@ -143,6 +143,21 @@ def impl(case):
         lt = mh.LumpedStateTraj(macro, tr)
         return {'assign': [int(v) for v in lt.state_assignment]}
     out['lumped_short'] = _guard(lumped_short)
+
+    def shared():
+        # ONE StateTraj object reused over a sequence of calls (coring first, then coring again with other windows,
+        # waiting times, pathways): every return value is compared between the configurations, so a compiled path
+        # that keeps state in the object (or works in place on what it cached) shows up against the interpreted one
+        st = mh.StateTraj(data())
+        res = {}
+        for tag, tau, it in (('cor2', 2, True), ('cor3', 3, False), ('cor2b', 2, True), ('cor4', 4, True)):
+            res[tag] = _guard(lambda tau=tau, it=it: [[int(v) for v in t] for t in mh.md.dynamical_coring(st, tau, iterative=it).trajs])
+        res['wt'] = _guard(lambda: sorted(int(v) for v in mh.md.estimate_waiting_times(st, case['S'], case['F'])))
+        res['paths'] = _guard(lambda: sorted([[int(x) for x in k], [int(v) for v in vs]] for k, vs in mh.md.estimate_paths(st, case['S'], case['F']).items()))
+        res['trajs'] = [[int(v) for v in t] for t in st.trajs]
+        res['emm'] = _guard(lambda: [_f(v) for v in st.estimate_markov_model(case['lag'])[0].flatten()])
+        return res
+    out['shared'] = _guard(shared)
     if not case['big']:
         present = sorted({v for t in case['trajs'] for v in t})
         f = {v: 100 + (i * 2) // max(1, len(present)) for i, v in enumerate(present)}
